@@ -39,6 +39,8 @@ not interleaved (stated in each).
 -/
 import GeckoModel.Proofs.Lifecycle
 import GeckoModel.Proofs.LifecycleConc
+import GeckoModel.Proofs.Coop
+import GeckoModel.Generated.Skeletons
 
 namespace GeckoModel.C08
 open GeckoModel.Lifecycle
@@ -334,5 +336,45 @@ example : resetClearsFacadeFirst { T with resetProg := shippedReset } = true ∧
 /-- the bracket clause can fail: an unclosed phase is rejected -/
 example : closedFrom .CONNECTION_STARTED .CONNECTION_FINISHED false [.CONNECTION_STARTED, .CONNECTION_GOT_CHANNEL] = false ∧
     (monStep .tornDown .CLIENT_FACADE_TEARDOWN).2 = false ∧ (monStep .none .CLIENT_FACADE_IS_READY).2 = false := by decide
+
+/-! ### the order inside `GeckoAsyncSpa.disconnect()` that "a reset always lands in IDLE" rests on
+
+The recovery reset runs ON one of the spa's own tasks (ping loop -> RUNNING_PING_RECEIVED -> `async_reset` -> `disconnect`),
+and `disconnect` cancels those tasks: everything that is awaited must come BEFORE that cancellation, everything after it must
+not suspend (a cancelled task is thrown out at its next suspension, and the reset would stop short of IDLE).  Over the
+regenerated suspension skeleton of `disconnect`, for every trace (`scan_accepts`, `sectionsAtomic_sound`). -/
+namespace Order
+open GeckoModel.Coop GeckoModel.Generated.Skeletons
+
+abbrev spaDisconnect := sk_async_spa__GeckoAsyncSpa_disconnect
+
+def cancelsOwnTasks (a : A) : Bool := a.kind == .call && a.name == "self._taskman.cancel_key_tasks"
+def lastCleanupStep (a : A) : Bool := a.kind == .call && a.name == "self.unwatch_all"
+
+/-- the disconnection is announced (the client's handler is awaited) before the spa cancels its own tasks and before it
+releases the endpoint; and from the cancellation to the last clean-up step nothing suspends -/
+theorem disconnect_order :
+    precedes (isAwaitOf "self._event_handler") (isCallOf "self._taskman.cancel_key_tasks") spaDisconnect = true ∧
+    precedes (isAwaitOf "self._event_handler") (isCallOf "self._transport.close") spaDisconnect = true ∧
+    sectionsAtomic cancelsOwnTasks lastCleanupStep spaDisconnect = true := by decide +kernel
+
+theorem disconnect_order_traces (t : List Ev) (o : Out) (h : Run spaDisconnect t o) :
+    (runMon (orderMon (isAwaitOf "self._event_handler") (isCallOf "self._taskman.cancel_key_tasks")) 0 t).isSome = true ∧
+    secOK cancelsOwnTasks lastCleanupStep false t = true :=
+  ⟨scan_accepts _ 4 spaDisconnect 0 disconnect_order.1 t o h, sectionsAtomic_sound _ _ spaDisconnect disconnect_order.2.2 t o h⟩
+
+/-- non-vacuity: the skeleton contains the three landmarks; and both reorderings are rejected - the announcement moved behind the
+cancellation, and a yield placed after the cancellation -/
+example : "self._taskman.cancel_key_tasks" ∈ actions .call spaDisconnect ∧ "self.unwatch_all" ∈ actions .call spaDisconnect ∧
+    suspensions spaDisconnect = 1 := by decide +kernel
+
+example :
+    precedes (isAwaitOf "self._event_handler") (isCallOf "self._taskman.cancel_key_tasks")
+      (.seq (.ev (.act ⟨.call, "self._taskman.cancel_key_tasks"⟩)) (.ev (.aw "self._event_handler"))) = false ∧
+    sectionsAtomic cancelsOwnTasks lastCleanupStep
+      (.seq (.ev (.act ⟨.call, "self._taskman.cancel_key_tasks"⟩)) (.seq (.ev (.aw "asyncio.sleep")) (.ev (.act ⟨.call, "self.unwatch_all"⟩)))) = false := by
+  decide +kernel
+
+end Order
 
 end GeckoModel.C08
